@@ -75,9 +75,9 @@ func cdsNeedsPush(req *model.PushRequest, proxy *model.Proxy) (*model.PushReques
 	// For routers: Clusters are EDS type - endpoint IPs delivered via EDS.
 	// For sidecars: Clusters are ORIGINAL_DST (no endpoints) or EDS type.
 	// In both cases, cluster definitions are static when only endpoints change.
-	// However, if ServiceUpdate is also present, the service definition changed
-	// (ports, labels, etc.) and we need to push CDS.
-	headlessOnly := req.Reason.Has(model.HeadlessEndpointUpdate) && !req.Reason.Has(model.ServiceUpdate)
+	// However, if any other reason is also present (ServiceUpdate: the service definition changed;
+	// or a merged notification that is not a headless endpoint update), we need to push CDS.
+	headlessOnly := req.Reason.Has(model.HeadlessEndpointUpdate) && len(req.Reason) == 1
 
 	relevantUpdates := make(sets.Set[model.ConfigKey])
 	filtered := false
